@@ -21,10 +21,10 @@ AppendRound(feed, key, price, t) ==
 (* query.rs::query_get_price -- the *record* the real feed answers with *)
 RealGetPrice(feed, key) == Last(Rounds(feed, key))
 
-(* query.rs::query_get_previous_price; FAIL = "Not enough history" *)
+(* query.rs::query_get_previous_price; ~ok = "Not enough history" *)
 RealGetPreviousPrice(feed, key, n) ==
   LET rs == Rounds(feed, key)
-  IN IF n > Last(rs).id THEN FAIL ELSE rs[Len(rs) - n]
+  IN IF n > Last(rs).id THEN [ok |-> FALSE, r |-> Last(rs)] ELSE [ok |-> TRUE, r |-> rs[Len(rs) - n]]
 
 (* query.rs::query_get_twap_price *)
 RECURSIVE RealTwapLoop(_, _, _, _, _, _, _)
